@@ -84,7 +84,8 @@ func verifyFunc(p *Program, c *FuncContract) (res *FuncResult) {
 		// A-SLICE0: a slice parameter is a view starting at offset 0 of its backing
 		// object (sound unless two parameters overlap in one array at different offsets)
 		for ci, c := range ex.L.Of(prm.Type()).Comps {
-			if c.Kind == kSliceOff && c.Lift == 0 {
+			if (c.Kind == kSliceOff || c.Kind == kStrOff) && c.Lift == 0 {
+				// (a string parameter's bytes are a value of its own: offset 0 w.l.o.g.)
 				hv.C[ci] = ex.zeroOfSort(c.Sort)
 			}
 		}
